@@ -780,9 +780,10 @@ func run(ctx *Ctx) *Result {
 		}
 		countHits(res, f["hits"])
 		res.Count("end-to-end-theorem-applies(wfB):" + f["wf"])
+		res.Count("wfB-first-failing-conjunct:" + f["wfwhy"])
 		if f["wf"] == "1" && !strings.HasPrefix(f["exec"], "ok") {
 			// the theorem says: accepted; cross-check its conclusion on this very case
-			res.Disagree(stream+": wfB holds but the Lean device rejects the model script (contradicts ios_F2_converges)", c, "", f["exec"])
+			res.Disagree(stream+": wfB holds but the Lean device rejects the model script (contradicts ios_F2_converges_partial)", c, "", f["exec"])
 		}
 		// Lean port of the strict device vs dev.go on the (identical) script
 		cmds = splitScript(out)
